@@ -361,7 +361,9 @@ func runC16(c *core.Ctx, r *core.Result) {
 	ls := links()
 	// the chain itself must be what we think it is
 	for d := 0; d <= maxDepth; d++ {
-		if !strings.HasSuffix(ls[d].dir, fmt.Sprintf("callmc/p%d", d)) || ls[d].file != fmt.Sprintf("p%d.go", d) {
+		// (link 2 presents itself under a //line path with colons)
+		if !(strings.HasSuffix(ls[d].dir, fmt.Sprintf("callmc/p%d", d)) && ls[d].file == fmt.Sprintf("p%d.go", d)) &&
+			!(d == 2 && ls[d].dir == "/verif-virtual/vol:1/p2" && ls[d].file == "p2:gen.go") {
 			r.HarnessError("C16: link %d lives in %s/%s", d, ls[d].dir, ls[d].file)
 		}
 		for e := 0; e < d; e++ {
